@@ -40,7 +40,11 @@ pub(super) fn optimize(
         }
       }
       Statement::Binary(b) => {
-        if expression_is_loop_invariant(&b.e1, &non_loop_invariant_variables)
+        // DIV and MOD may trap: hoisting them above the loop guard would introduce the trap into
+        // runs that never reach the statement.
+        if b.operator != samlang_ast::hir::BinaryOperator::DIV
+          && b.operator != samlang_ast::hir::BinaryOperator::MOD
+          && expression_is_loop_invariant(&b.e1, &non_loop_invariant_variables)
           && expression_is_loop_invariant(&b.e2, &non_loop_invariant_variables)
         {
           hoisted_stmts.push(stmt);
